@@ -189,3 +189,34 @@ class FlakyFeed:
             self.keep.append(obj)
             n += 1
             yield obj
+
+
+# --------------------------------------------------------------------------- more shapes of a failing listen()
+class FalsyLost(Exception):
+    """a client library's error object that is falsy and compares equal to anything (seen in the wild: errors carrying a
+    result-like interface); still an ordinary Exception"""
+
+    def __bool__(self):
+        return False
+
+    def __eq__(self, other):
+        return True
+
+    def __hash__(self):
+        return 0
+
+
+def listen_fault(name):
+    """the exception object a scripted listen() raises for the fault called `name`: the classes of LISTEN_FAULTS, and
+    falsy = FalsyLost | group = an ExceptionGroup of two connection errors (what a client built on task groups raises) |
+    broker = taskiq's own BrokerError (no positional arguments: its message is a template)"""
+    if name in LISTEN_FAULTS:
+        return LISTEN_FAULTS[name]("connection to the queue was lost")
+    if name == "falsy":
+        return FalsyLost("connection to the queue was lost")
+    if name == "group":
+        return ExceptionGroup("connection to the queue was lost", [ConnectionError("reset"), TimeoutError("ping")])
+    if name == "broker":
+        from taskiq.exceptions import BrokerError
+        return BrokerError()
+    raise AssertionError("scenario: unknown listen fault %r" % (name,))
